@@ -19,6 +19,7 @@ NewTask         == TC("new_task", "", ABSENT, ABSENT, "")
 NewTaskIn(e)    == [TC("new_task", "", ABSENT, ABSENT, "") EXCEPT !.epic = e]
 NewTaskClaim(a) == TC("new_task", "", ABSENT, a, a)
 SetState(i, s, a) == TC("set", i, s, ABSENT, a)
+SetTitle(i, t)    == [TC("set", i, ABSENT, ABSENT, "") EXCEPT !.title = t]
 PlanAB == [name |-> "plan", mode |-> "json", newids |-> <<"i7", "i8", "i9">>,
            doc |-> [title |-> "P", body |-> ABSENT,
                     tasks |-> <<[title |-> "a", body |-> ABSENT, after |-> <<>>],
@@ -34,8 +35,11 @@ L_one  == <<EvNew("task", "i1", "", "todo", "T1", "", 1)>>
 L_emptyepic == <<EvNew("epic", "i1", "", "todo", "E1", "", 1), EvNew("task", "i2", "", "todo", "T2", "", 2)>>
 L_empty == <<>>
 
-S(name, init, cmds, readers) == [name |-> name, init |-> init, cmds |-> cmds, readers |-> readers, nolock |-> FALSE]
-SN(name, init, cmds, readers) == [name |-> name, init |-> init, cmds |-> cmds, readers |-> readers, nolock |-> TRUE]
+S(name, init, cmds, readers) == [name |-> name, init |-> init, cmds |-> cmds, readers |-> readers, nolock |-> FALSE,
+                                 legacy |-> FALSE, rkind |-> "list", rid |-> ""]
+SN(name, init, cmds, readers) == [S(name, init, cmds, readers) EXCEPT !.nolock = TRUE]
+Legacy(s) == [s EXCEPT !.legacy = TRUE, !.name = @ \o "-legacy"]     \* the store holds only events.jsonl
+ShowEpic(s, e) == [s EXCEPT !.rkind = "show", !.rid = e, !.name = @ \o "-show"]
 P2(a, b) == ("p1" :> a) @@ ("p2" :> b)
 P3(a, b, c) == ("p1" :> a) @@ ("p2" :> b) @@ ("p3" :> c)
 P1(a) == ("p1" :> a)
@@ -88,7 +92,12 @@ ReaderScenarios == {
   S("r-claim",   L_two,  P1(Claim("a1")), {"r1"}),
   S("r-prune",   L_done, P1(Prune), {"r1"}),
   S("r-compact", L_done, P1(Compact), {"r1"}),
-  S("r-plan",    L_one,  P1(PlanAB), {"r1"})
+  S("r-plan",    L_one,  P1(PlanAB), {"r1"}),
+  Legacy(S("r-compact", L_done, P1(Compact), {"r1"})),
+  Legacy(S("r-new",     L_one,  P1(NewTask), {"r1"})),
+  Legacy(S("r-plan",    L_one,  P1(PlanAB), {"r1"})),
+  ShowEpic(S("r-retitle-child", L_epic, P2(SetTitle("i1", "E1 renamed"), NewTaskIn("i1")), {"r1"}), "i1"),
+  ShowEpic(S("r-compact", L_epic, P1(Compact), {"r1"}), "i1")
 }
 
 CrashScenarios == {
@@ -108,6 +117,7 @@ CrashScenarios == {
 AllScenarios == ClaimScenarios \cup PairScenarios \cup ReaderScenarios \cup CrashScenarios
 ScenarioTable == PrintT("@SC " \o ToJson([s \in {x.name : x \in AllScenarios} |->
                      LET x == CHOOSE y \in AllScenarios : y.name = s IN
-                       [init |-> x.init, cmds |-> x.cmds, readers |-> x.readers, nolock |-> x.nolock]]))
+                       [init |-> x.init, cmds |-> x.cmds, readers |-> x.readers, nolock |-> x.nolock,
+                        legacy |-> x.legacy, rkind |-> x.rkind, rid |-> x.rid]]))
 ASSUME ScenarioTable
 =============================================================================
